@@ -61,8 +61,9 @@ PARTIAL = [
     'exact-real instance cannot express the isinf test, so the theorem is stated on the loop entered after the skipped object '
     'gap (scale_pos_infinite_object: object entry untouched, every other vertex times s) and the test itself is covered by '
     'executing the model (binary64, -inf object) against optiland on every run',
-    'launch (RayGenerator): mirror covariance and homogeneity of the generated ray are checked on optiland (launch record of '
-    'every metamorphic pair) and the kernels are translated (c07_origins_inf, rg_generate), but no theorem is stated over them',
+    'launch (RayGenerator): homogeneity of the launch point is PROVED over the regenerated kernels of _get_starting_z_offset / '
+    '_get_ray_origins (z_offset_homogeneous, origins_homogeneous: infinite and finite objects, both field types); its mirror '
+    'covariance and the direction cosines of generate_rays are checked on optiland (launch record of every pair), not proved',
     'first/third-order homogeneity (f2, Seidel sums scale by s): checked on optiland and on the paraxial model, not proved',
 ]
 
